@@ -106,18 +106,22 @@ fn push(w: W) -> Op {
     Op::Stack(asm::Stack::Push(w))
 }
 
-/// Echo: pre-state KeyRange with key = [tag, extra words on the stack...], count 0, addr 0.
-/// `n_extra` words currently on top of the stack become part of the key.
+/// First word of every echo key: tells echoes apart from the fallback reads the post-state
+/// overlay issues against the pre-state (those carry a program's own key).
+pub const ECHO_MAGIC: W = 0x4543_484F_0000_0001;
+
+/// Echo: pre-state KeyRange with key = [MAGIC, tag, extra words on the stack...], count 0, addr 0.
+/// The `n_extra + 2` words currently on top of the stack become the key.
 fn echo_with(tag_first: bool, n_extra: usize) -> Vec<Op> {
     let _ = tag_first;
-    vec![push(n_extra as W + 1), push(0), push(0), Op::StateRead(asm::StateRead::KeyRange)]
+    vec![push(n_extra as W + 2), push(0), push(0), Op::StateRead(asm::StateRead::KeyRange)]
 }
 
 /// [.., ] -> pushes (tag, stack_len, mem_len) and echoes them.
 fn echo_summary(tag: W) -> Vec<Op> {
     use asm::{Memory as M, Stack as S};
-    let mut v = vec![push(tag), push(0), Op::Stack(S::Reserve), push(0), Op::Memory(M::Alloc)];
-    // stack: [.., tag, slen, mlen]  (slen counts tag itself: len before Reserve's own push)
+    let mut v = vec![push(ECHO_MAGIC), push(tag), push(0), Op::Stack(S::Reserve), push(0), Op::Memory(M::Alloc)];
+    // stack: [.., MAGIC, tag, slen, mlen]  (slen counts MAGIC and tag: len before Reserve's own push)
     v.extend(echo_with(true, 2));
     v
 }
@@ -212,9 +216,11 @@ fn probe(tag: W, op: u8, ext: u8, key: &[W], count: W) -> Vec<Op> {
         2 => SR::PostKeyRange,
         _ => SR::PostKeyRangeExtern,
     }));
-    // [.., base] -> echo key = [tag, window..]
+    // [.., base] -> echo key = [MAGIC, tag, window..]
+    v.push(push(ECHO_MAGIC));
+    v.push(Op::Stack(asm::Stack::Swap)); // [.., MAGIC, base]
     v.push(push(tag));
-    v.push(Op::Stack(asm::Stack::Swap)); // [.., tag, base]
+    v.push(Op::Stack(asm::Stack::Swap)); // [.., MAGIC, tag, base]
     v.push(push(PROBE_MEM));
     v.push(Op::Memory(M::LoadRange)); // [.., tag, w0..w23]
     v.extend(echo_with(true, PROBE_MEM as usize));
@@ -628,6 +634,11 @@ pub fn ck_obs(case: &CkCase, b: &Built) -> String {
         }
         o
     });
-    format!("{:?} | {:?} | {:?}", r.out, m.pass1, m.pass2)
+    // what the node programs saw (echo records: tags, input sizes, windows of what reads returned),
+    // as a sorted multiset: the order of the log is schedule-dependent by nature, its content is not
+    let mut echoes: Vec<&Rec> = r.log.iter().filter(|x| x.2 == 0 && x.1.first() == Some(&ECHO_MAGIC)).collect();
+    echoes.sort();
+    let ok = matches!(r.out, CkOut::Ok { .. });
+    format!("{:?} | {:?} | {:?} | {:?}", r.out, m.pass1, m.pass2, if ok { echoes } else { vec![] })
 }
 
